@@ -663,3 +663,245 @@ def progress_script(r, idx, fate_vec=None, drops_only=None):
     budget = 400
     steps.append({"do": "run_until", "what": "apps", "max_us": budget * 1000000})
     return {"cfg": cfg, "steps": steps, "tag": {"family": "progress", "idx": idx, "budget_s": budget}}
+
+
+# ------------------------------------------------------------------------------------------------
+# C03 / C06
+
+def _var(v):
+    if v < 1 << 6:
+        return bytes([v])
+    if v < 1 << 14:
+        return (v | 0x4000).to_bytes(2, "big")
+    if v < 1 << 30:
+        return (v | 0x80000000).to_bytes(4, "big")
+    return (v | 0xc000000000000000).to_bytes(8, "big")
+
+
+def hostile_case(case, r, idx):
+    """Concretise one abstract HostileGen case: frame bytes + descriptor for Hostile!Expected."""
+    v = case["v"]
+    k = case["k"]
+    rel = case["rel"]
+    conn_aim = case["lim"] == "conn"
+    sw, cw = (8000, 3000) if conn_aim else (1000, 100000)
+    msb, msu = 2, 1
+    victim_t = {"stream_recv_window": sw, "recv_window": cw, "max_bidi": msb, "max_uni": msu,
+                "dgram_recv_buf": 500, "idle_ms": 20000, "mtud": False}
+    other_t = {"idle_ms": 20000, "mtud": False}
+    cfg = base_cfg(r)
+    cfg["server"], cfg["client"] = (victim_t, other_t) if v == "s" else (other_t, victim_t)
+    peerbit = 0 if v == "s" else 1
+    ownbit = 1 - peerbit
+    ids = {"peer_bidi_first": peerbit, "peer_bidi_last_allowed": 4 * (msb - 1) + peerbit,
+           "peer_bidi_beyond": 4 * msb + peerbit, "peer_uni_first": 2 + peerbit,
+           "peer_uni_beyond": 4 * msu + 2 + peerbit, "own_uni": 2 + ownbit, "own_bidi_unopened": ownbit,
+           "none": 0}
+    sid = ids[case["idc"]]
+    limit = cw if conn_aim else sw
+    d = {"k": k}
+    if k in ("stream", "reset"):
+        end = limit + rel
+        d.update({"id": sid, "end": end})
+        if k == "stream":
+            fb = bytes([0x0e]) + _var(sid) + _var(end - 1) + _var(1) + b"A"
+        else:
+            fb = bytes([0x04]) + _var(sid) + _var(5) + _var(end)
+    elif k == "finthenmore":
+        fin = 10
+        end = fin + rel
+        d.update({"id": sid, "fin": fin, "end": end})
+        fb = bytes([0x0f]) + _var(sid) + _var(fin - 1) + _var(1) + b"F" \
+            + bytes([0x0e]) + _var(sid) + _var(end - 1) + _var(1) + b"M"
+    elif k == "stop":
+        d["id"] = sid
+        fb = bytes([0x05]) + _var(sid) + _var(7)
+    elif k == "maxsd":
+        d["id"] = sid
+        fb = bytes([0x11]) + _var(sid) + _var(100000)
+    elif k == "sdblocked":
+        d["id"] = sid
+        fb = bytes([0x15]) + _var(sid) + _var(5)
+    elif k in ("maxstreams", "streamsblocked"):
+        val = {-1: 5, 0: 1 << 60, 1: (1 << 60) + 1}[rel]
+        d["huge"] = rel == 1
+        fb = bytes([0x12 if k == "maxstreams" else 0x16]) + _var(val)
+    elif k == "newcid":
+        seq, rpt = {-1: (2, 3), 0: (100, 0), 1: (100, 101)}[rel]
+        d.update({"seq": seq, "rpt": rpt})
+        fb = bytes([0x18]) + _var(seq) + _var(rpt) + bytes([8]) + bytes(r.randrange(256) for _ in range(8)) \
+            + bytes(r.randrange(256) for _ in range(16))
+    elif k == "retirecid":
+        seq = {-1: 1, 0: 100, 1: 1000}[rel]
+        d["seq"] = seq
+        if rel == -1:
+            # a valid retirement the honest peer does not know about desynchronises the two honest
+            # stacks: only robustness is demanded, not a particular outcome
+            d["k"] = "desync"
+        fb = bytes([0x19]) + _var(seq)
+    elif k == "newtoken":
+        ln = 0 if rel == -1 else 5
+        d["len"] = ln
+        fb = bytes([0x07]) + _var(ln) + b"T" * ln
+    elif k == "datagram":
+        ln = 500 + rel
+        d["len"] = ln
+        fb = bytes([0x31]) + _var(ln) + b"D" * ln
+    elif k == "crypto":
+        end = 16384 + rel
+        d["off"] = end          # Hostile!Expected compares against 16384 + 1
+        fb = bytes([0x06]) + _var(end - 1) + _var(1) + b"C"
+    elif k == "ackfreq":
+        mad = 1000 + rel
+        d["mad"] = mad
+        fb = bytes([0x40, 0xaf]) + _var(1) + _var(1) + _var(mad) + _var(1)
+    elif k == "hsdone":
+        fb = bytes([0x1e])
+    elif k == "ackunsent":
+        fb = bytes([0x02]) + _var(1 << 29) + _var(0) + _var(0) + _var(0)
+    elif k == "unknown":
+        fb = bytes([0x21])
+    elif k == "truncated":
+        fb = bytes([0x04])
+    elif k == "ping":
+        fb = bytes([0x01])
+    elif k == "padding":
+        fb = bytes([0x00, 0x00])
+    elif k == "pathresp":
+        fb = bytes([0x1b]) + bytes(8)
+    elif k == "pathchal":
+        fb = bytes([0x1a]) + bytes(range(8))
+    elif k == "datablocked":
+        fb = bytes([0x14]) + _var(5)
+    elif k == "maxdata":
+        fb = bytes([0x10]) + _var(100000)
+    else:
+        raise ValueError(k)
+    bystander = r.random() < 0.25
+    if bystander:
+        cfg["clients"] = 2
+    attacker_n, victim_n = (1, 0) if v == "s" else (0, 1)
+    steps = [{"do": "connect", "n": 1}]
+    if bystander:
+        steps.append({"do": "connect", "n": 2})
+        steps.append({"do": "app", "n": 2, "c": 0, "streams": [{"dir": 0, "size": 4000, "chunk": 1000, "finish": True}]})
+    steps += [{"do": "run_until", "what": "connected", "max_us": 5000000}, {"do": "run", "us": 400000},
+              {"do": "mitm", "dir": "c2s" if v == "s" else "s2c", "nth_short": 0, "mode": "append", "hex": fb.hex()},
+              {"do": "op", "n": attacker_n, "c": 0, "op": {"op": "ping"}},
+              {"do": "run", "us": 300000}]
+    # the victim application tries to read whatever the hostile frame may have delivered
+    own_uni = (sid // 2) % 2 == 1 and (sid % 2 == (0 if v == "c" else 1))
+    if k in ("stream", "finthenmore") and not own_uni:
+        steps.append({"do": "op", "n": victim_n, "c": 0, "op": {"op": "accept", "dir": 1 if (sid // 2) % 2 else 0}})
+        steps.append({"do": "op", "n": victim_n, "c": 0, "op": {"op": "read", "id": sid, "ordered": False}})
+    steps.append({"do": "run_until", "what": "apps", "max_us": 5000000})
+    d["by"] = bystander
+    return {"cfg": cfg, "steps": steps, "tag": {"family": "hostile-frame", "victim": v, "inject": d, "idx": idx,
+                                                 "abstract": case, "hostile": True}}
+
+
+def hostile_flood(r, idx):
+    v = r.choice(["s", "c"])
+    cfg = base_cfg(r)
+    cfg["server"] = {"idle_ms": 20000}
+    cfg["client"] = {"idle_ms": 20000}
+    kind = r.choice(["pathchal", "newcid", "retirecid", "ping", "maxdata", "stream1", "ackdup"])
+    if kind == "pathchal":
+        fb = b"".join(bytes([0x1a]) + bytes(r.randrange(256) for _ in range(8)) for _ in range(40))
+    elif kind == "newcid":
+        fb = b"".join(bytes([0x18]) + _var(s) + _var(0) + bytes([8]) + bytes(r.randrange(256) for _ in range(8))
+                      + bytes(r.randrange(256) for _ in range(16)) for s in range(5, 9))
+    elif kind == "retirecid":
+        fb = b"".join(bytes([0x19]) + _var(s) for s in range(1, 4))
+    elif kind == "ping":
+        fb = bytes([0x01]) * 200
+    elif kind == "maxdata":
+        fb = b"".join(bytes([0x10]) + _var(x) for x in range(1000, 1100))
+    elif kind == "stream1":
+        peerbit = 0 if v == "s" else 1
+        fb = b"".join(bytes([0x0e]) + _var(peerbit) + _var(2 * i) + _var(1) + b"x" for i in range(150))
+    else:
+        fb = (bytes([0x02]) + _var(0) + _var(0) + _var(0) + _var(0)) * 50
+    cfg["clients"] = 2
+    steps = [{"do": "connect", "n": 1}, {"do": "connect", "n": 2},
+             {"do": "app", "n": 2, "c": 0, "streams": [{"dir": 0, "size": 6000, "chunk": 1000, "finish": True}]},
+             {"do": "run_until", "what": "connected", "max_us": 5000000}, {"do": "run", "us": 300000},
+             {"do": "mitm", "dir": "c2s" if v == "s" else "s2c", "nth_short": 0, "mode": "append", "hex": fb.hex(),
+              "count": r.choice([5, 40, 150])},
+             {"do": "app", "n": 1, "c": 0, "streams": [{"dir": 0, "size": 200000, "chunk": 1000, "finish": True}]},
+             {"do": "app", "n": 0, "c": 0, "streams": [{"dir": 0, "size": 200000, "chunk": 1000, "finish": True}]},
+             {"do": "run", "us": 3000000}]
+    return {"cfg": cfg, "steps": steps, "tag": {"family": "hostile-flood", "victim": v, "inject": {"k": "flood", "what": kind, "by": True},
+                                                 "idx": idx, "hostile": True}}
+
+
+TP_IDS = [0x01, 0x03, 0x04, 0x05, 0x06, 0x07, 0x08, 0x09, 0x0a, 0x0b, 0x0c, 0x0e, 0x0f, 0x20, 0xff04de1b, 0x00, 0x02, 0x10]
+TP_VALUES = [0, 1, 2, 3, 20, 21, 63, 64, 1199, 1200, 16383, 16384, (1 << 14), (1 << 24), (1 << 30) - 1, (1 << 30), (1 << 60), (1 << 60) + 1, (1 << 62) - 1]
+
+
+def hostile_tp(r, idx):
+    """Hostile transport parameters presented by a peer (grammar: set / remove / duplicate / raw)."""
+    side = r.choice(["client", "client", "server"])
+    cfg = base_cfg(r)
+    cfg["server"] = {"idle_ms": 5000, "ack_freq": r.random() < 0.6}
+    cfg["client"] = {"idle_ms": 5000, "ack_freq": r.random() < 0.4}
+    if r.random() < 0.2:
+        cfg["server_cid_len"] = 0
+    if r.random() < 0.2:
+        cfg["client_cid_len"] = 0
+    edits = []
+    for _ in range(r.choice([1, 1, 2, 3])):
+        pid = r.choice(TP_IDS)
+        k = r.random()
+        if k < 0.6:
+            edits.append([pid, r.choice(TP_VALUES)])
+        elif k < 0.7:
+            edits.append([pid, -1])
+        elif k < 0.8:
+            edits.append([pid, -3])
+        else:
+            edits.append([pid, -2, bytes(r.randrange(256) for _ in range(r.choice([0, 1, 3, 9, 17]))).hex()])
+    # the ack-frequency related pair at its interesting corner
+    if r.random() < 0.25:
+        edits = [[0x0b, r.choice([0, 1, 25, 200, 16383])], [0xff04de1b, r.choice([0, 1, 999, 1000, 25000, 100000, 16383000])]]
+    cfg[side + "_tp"] = edits
+    cfg["clients"] = 2
+    steps = [{"do": "connect", "n": 1}, {"do": "connect", "n": 2},
+             {"do": "app", "n": 1, "c": 0, "streams": [{"dir": 0, "size": 3000, "chunk": 1000, "finish": True}]},
+             {"do": "app", "n": 2, "c": 0, "streams": [{"dir": 0, "size": 3000, "chunk": 1000, "finish": True}]},
+             {"do": "run", "us": 3000000}]
+    return {"cfg": cfg, "steps": steps, "tag": {"family": "hostile-tp", "victim": "s" if side == "client" else "c",
+                                                 "inject": {"k": "tp", "edits": json_safe(edits), "by": side == "client"}, "idx": idx, "hostile": True}}
+
+
+def json_safe(x):
+    return [[str(v) if isinstance(v, int) and v >= 1 << 31 else v for v in e] for e in x]
+
+
+def hostile_raw(r, idx):
+    """Arbitrary and structure-aware mutated datagrams handed to Endpoint::handle in any state."""
+    cfg = base_cfg(r)
+    cfg["server"] = {"idle_ms": 20000}
+    cfg["client"] = {"idle_ms": 20000}
+    cfg["clients"] = 2
+    n = 24
+    menu = CORRUPT_MENU + ["corrupt:0:128", "corrupt:1:1", "corrupt:2:1", "corrupt:4:7", "corrupt:5:255", "corrupt:6:3",
+                           "corrupt:14:200", "corrupt:15:9", "corrupt:22:77", "trunc:0", "trunc:2", "trunc:6", "trunc:7",
+                           "trunc:15", "trunc:16", "trunc:23", "trunc:24", "trunc:30", "ext:1200", "dup:0"]
+    cfg["fates_c2s"] = [r.choice(menu) if r.random() < 0.6 else "ok" for _ in range(n)]
+    cfg["fates_s2c"] = [r.choice(menu) if r.random() < 0.6 else "ok" for _ in range(n)]
+    steps = [{"do": "connect", "n": 1}, {"do": "connect", "n": 2}]
+    for _ in range(r.choice([5, 20, 60])):
+        ln = r.choice([0, 1, 2, 5, 6, 7, 20, 21, 22, 100, 1199, 1200, 1201, 1500])
+        data = bytes(r.randrange(256) for _ in range(ln))
+        if ln and r.random() < 0.5:
+            # long header shaped: version / cid lengths at their boundaries
+            hdr = bytes([0xc0 | r.randrange(64)]) + r.choice([b"\x00\x00\x00\x01", b"\x00\x00\x00\x00", b"\xff\x00\x00\x1d", b"\x0a\x1a\x2a\x3a"]) \
+                + bytes([r.choice([0, 1, 8, 20, 21, 255])])
+            data = (hdr + data)[:max(ln, len(hdr))]
+        steps.append({"do": "raw", "to": r.choice([0, 0, 1]), "hex": data.hex()})
+        if r.random() < 0.3:
+            steps.append({"do": "run", "us": r.choice([0, 1000, 30000])})
+    steps.append({"do": "app", "n": 2, "c": 0, "streams": [{"dir": 0, "size": 3000, "chunk": 1000, "finish": True}]})
+    steps.append({"do": "run_until", "what": "apps", "max_us": 120000000})
+    return {"cfg": cfg, "steps": steps, "tag": {"family": "hostile-raw", "victim": "s", "inject": {"k": "raw", "by": True}, "idx": idx, "hostile": True}}
